@@ -46,7 +46,7 @@ RULE = {
     'thorough': _COMMON +
                 'Catalogue: every configuration of mc.catalog.configs("thorough"), every structural block of each hierarchy. '
                 'Netlists: n <= 2 as in quick with the alias variant of every i = 2 shape; n = 3: every type sequence over '
-                '{Not,And2,Reg,Two} x every (i,o) with i in {1,2}, o in {0,1,2} (for (i,o) = (2,2) only sequences with at most one of '
+                '{Not,And2,Reg,Two} x every (i,o) with i in {1,2}, o in {0,1,2} (for (i,o) in {(2,2),(1,2)} only sequences with at most one of '
                 '{And2,Two}), plus sequences with exactly one Mux2 and two of '
                 '{Not,Reg} x (i,o) in {(1,1),(2,1),(1,2)}; n = 4: sequences over {Not,Reg,And2} with at most one And2 and at most '
                 'two Reg, (i,o) = (1,1); all wirings in each case.',
@@ -185,7 +185,7 @@ def netlist_shapes(tier):
         for seq in itertools.product('NART', repeat=3):
             few = sum(seq.count(x) for x in 'AT') <= 1
             for i, o in allio:
-                if i >= 1 and ((i, o) != (2, 2) or few):
+                if i >= 1 and ((i, o) not in ((2, 2), (1, 2)) or few):
                     out.append((seq, i, o))
         for seq in itertools.product('NRM', repeat=3):
             if seq.count('M') == 1:
@@ -206,9 +206,10 @@ def netlist_shapes(tier):
         types = [L[x] for x in seq]
         if schem.space(types, i, o) > 0:
             res.append((''.join(seq), i, o, 0))
-            if i == 2 and len(seq) <= 2 and (o <= 1 or tier != 'quick'):
+            heavy = (i, o) == (2, 2) and 'M' in seq
+            if i == 2 and len(seq) <= 2 and (o <= 1 or tier != 'quick') and not heavy:
                 res.append((''.join(seq), i, o, 1))         # both in-ports on one wire
-            if i >= 1 and len(seq) <= 2 and (o <= 1 or tier != 'quick'):
+            if i >= 1 and len(seq) <= 2 and (o <= 1 or tier != 'quick') and not heavy:
                 res.append((''.join(seq), i, o, 2))         # internal wires named like the outer wires on the in-ports
     return res
 
